@@ -41,6 +41,7 @@ func runC12(c *Ctx) {
 	ruleFailedInit(c)
 	ruleEndpointRelease(c)
 	ruleLoopNonBlocking(c, "R12.7")
+	ruleTransportHandOn(c, "R12.8")
 }
 
 // exception table for bare (non-select) blocking channel operations; one reason each. Keyed by
@@ -1029,4 +1030,150 @@ func ruleEndpointRelease(c *Ctx) {
 		}
 		r.Check(ok, rule, "endpointCustom.provide", c.Pos(pv.Pos()), "hands the channel a removeCloser wrapper", "endpointCustom.provide must wrap the user's transport in removeCloser (else each channel teardown closes it)")
 	}
+}
+
+// ruleTransportHandOn (R12.8): a transport an endpoint has just opened is either handed on or closed.
+// In every provide() / connect() method of the endpoint types, for each call that yields a closable value together
+// with an error (connect(), net.Dial…, serialOpenFunc, Accept), every return reachable on the call's success edge
+// either returns that value (possibly wrapped: timednetconn.New(conn), &removeCloser{conn}) or is preceded by a Close
+// of it. A return of (nil, errTerminated) after a successful open leaks the connection / keeps the port busy.
+func ruleTransportHandOn(c *Ctx, rule string) {
+	r := c.R
+	r.Rule(rule, "an opened transport is handed on or closed: in the endpoints' provide() / connect() methods every return reachable after a successful open either returns the opened value (possibly wrapped) or closes it first", 4)
+	closable := func(t types.Type) bool {
+		ms := types.NewMethodSet(t)
+		for i := 0; i < ms.Len(); i++ {
+			if ms.At(i).Obj().Name() == "Close" {
+				return true
+			}
+		}
+		return false
+	}
+	var derives func(v, src ssa.Value, d int) bool
+	derives = func(v, src ssa.Value, d int) bool {
+		if v == src {
+			return true
+		}
+		if d > 5 || v == nil {
+			return false
+		}
+		switch x := v.(type) {
+		case *ssa.Phi:
+			for _, e := range x.Edges {
+				if derives(e, src, d+1) {
+					return true
+				}
+			}
+		case *ssa.MakeInterface:
+			return derives(x.X, src, d+1)
+		case *ssa.ChangeInterface:
+			return derives(x.X, src, d+1)
+		case *ssa.ChangeType:
+			return derives(x.X, src, d+1)
+		case *ssa.TypeAssert:
+			return derives(x.X, src, d+1)
+		case *ssa.Extract:
+			return derives(x.Tuple, src, d+1)
+		case *ssa.Call:
+			for _, a := range argsDeep(&x.Call) {
+				if derives(a, src, d+1) {
+					return true
+				}
+			}
+		case *ssa.Alloc:
+			if x.Comment == "complit" {
+				for _, fv := range litFields(x) {
+					if derives(fv, src, d+1) {
+						return true
+					}
+				}
+			}
+		}
+		return false
+	}
+	n := 0
+	for _, fn := range rootFns(c) {
+		if (fn.Name() != "provide" && fn.Name() != "connect") || fn.Signature.Recv() == nil || !strings.HasPrefix(fnLocalName(fn), "endpoint") {
+			continue
+		}
+		r.Functions[fnQual(fn)] = true
+		bad := ""
+		nAcq := 0
+		for _, in := range allInstrs(fn) {
+			call, ok := in.(*ssa.Call)
+			if !ok {
+				continue
+			}
+			tup, ok := call.Type().(*types.Tuple)
+			if !ok || tup.Len() < 2 || typeStr(tup.At(tup.Len()-1).Type()) != "error" {
+				continue
+			}
+			var val ssa.Value
+			if call.Referrers() != nil {
+				for _, rf := range *call.Referrers() {
+					if e, ok := rf.(*ssa.Extract); ok && closable(e.Type()) {
+						val = e
+					}
+				}
+			}
+			ev := errValueOf(call)
+			if val == nil || ev == nil {
+				continue
+			}
+			nAcq++
+			iff, _, isNil := nilGuard(fn, ev)
+			if iff == nil || isNil == nil {
+				// `return open(…)`: value and error are passed on together
+				isNil = call.Block()
+			}
+			succ := reachFrom(isNil, nil, nil)
+			if isNil != call.Block() {
+				succ = reachFrom(isNil, nil, map[*ssa.BasicBlock]bool{call.Block(): true})
+			}
+			for _, ret := range retInstrs(fn) {
+				if !succ[ret.Block()] && ret.Block() != isNil {
+					continue
+				}
+				handed := false
+				for _, res := range ret.Results {
+					if derives(res, val, 0) {
+						handed = true
+					}
+				}
+				if handed {
+					continue
+				}
+				// closed on every path from the success edge to this return?
+				closed := false
+				for _, ci := range callsIn(fn, func(_ string, cc *ssa.CallCommon) bool {
+					return cc.IsInvoke() && cc.Method.Name() == "Close" && derives(cc.Value, val, 0)
+				}) {
+					if _, leak := pathExistsAvoiding(startInstr(isNil, call), func(x ssa.Instruction) bool { return x == ssa.Instruction(ret) }, func(x ssa.Instruction) bool { return x == ci.(ssa.Instruction) }); !leak {
+						closed = true
+					}
+				}
+				if !closed {
+					bad = fmt.Sprintf("after %s succeeded (%s) the return at %s neither hands the opened transport on nor closes it: the connection / port stays open although the endpoint reports termination or failure",
+						calleeName(&call.Call), c.Pos(call.Pos()), c.Pos(ret.Pos()))
+				}
+			}
+		}
+		if nAcq == 0 {
+			continue
+		}
+		n++
+		r.Check(bad == "", rule, fnLocalName(fn)+" opened transport", c.Pos(fn.Pos()), fmt.Sprintf("%d open sites: every success path hands the transport on or closes it", nAcq), bad)
+	}
+	if n == 0 {
+		r.Broken(rule, "open sites", "no provide()/connect() method opening a transport found")
+	}
+}
+
+// startInstr: the instruction from which the success region of call starts: the first instruction of the success
+// block, or the call itself when its error is not tested in this function.
+func startInstr(b *ssa.BasicBlock, call *ssa.Call) ssa.Instruction {
+	if b == call.Block() {
+		return call
+	}
+	return b.Instrs[0]
 }
